@@ -297,6 +297,10 @@ def decodeFirst : List SType → String → Option (List Atom)
     | none => decodeFirst ms s
 end
 
+/-- `simple_type.is_valid(literal)` of the schema processor (TRUSTED; used by the decoder to choose a
+union member): the literal is in the lexical space of the type and satisfies its facets -/
+def isValid (t : SType) (s : String) : Bool := (decode t s).isSome
+
 /-- expected typed value of an element (XDM 3.1 §6.2.4):
 `none` = the typed value is undefined (element-only content, `fn:data` raises FOTY0012) or the
 content is not valid -/
